@@ -20,6 +20,7 @@ RULE = ('case = one generated document (normal or hostile profile; thorough adds
         'sub-model (tokens, trees, repeated nodes) prints exactly text[a:b] for the offsets of its first/last token accumulated over the '
         'store. Non-trivial = the text has >=1 directive or comment and >=1 sub-model slice was compared; distinct = hash(text, target, acl). '
         'Texts on which parse raises are "not accepted" and counted by exception class.')
+RULE += (" Also (rounds 9-12): every fresh parse is checked for the span invariants of its tree (each child inside its parent's first..last token, no overlap, every node in the root's store) - what a sub-model spans is decided by its children; inline sub-model texts are re-parsed with blanks, line ends or a comment line around them (the store concatenation must be the input; what print(model) omits there is a known finding); zero-valued numerals and expressions are generated on purpose.")
 ASSUMPTIONS = ['acceptance is decided by the real parse(); the generator only proposes texts',
                'slice offsets come from the store order, cross-checked by the concatenation test']
 
